@@ -33,7 +33,7 @@ type bcfg struct {
 }
 
 var (
-	menuTransport = []string{"send", "recv", "hs", "reset"}
+	menuTransport = []string{"send", "recv", "hs", "reset", "ferr"}
 	menuA         = []string{"streamBreak", "F.restart", "F.loseLog"}
 	menuB         = []string{"F.offline", "L.loseTail"}
 )
@@ -183,7 +183,7 @@ func main() {
 			}
 		}
 	}
-	rep.Rule = "one breadth-first search to fixpoint per configuration (append word over {x=6 bytes, y=40 bytes} x fault budget x fault menu); events: L.append (payload = function of size class, epoch, position), step (one real partition.replica on the leader's remote replicator), step!send / step!recv / step!hs / step!reset (the step's Send fails / its answer is lost after the follower handled it / the handshake's GetReplicaAckIndex fails / the follower applied Reset but the answer is lost), streamBreak, F.restart, F.loseLog, F.offline, F.online, L.loseTail (leader directory replaced by the copy taken before the last append, later appends carry a new epoch), L.gc (partition.IsExpire: sync acks + queue GC); a successor = two fresh WAL managers + replay of the shortest history + one event; states deduplicated by the canonical state (world.go Canon); state clauses on every transition, recovery goal (F.online + <=K fault-free steps must align both logs, first delivered index = first position the follower lacks and the leader holds) once per canonical state. distinct_nontrivial = canonical states with >=1 leader message and an existing follower log"
+	rep.Rule = "one breadth-first search to fixpoint per configuration (append word over {x=6 bytes, y=40 bytes} x fault budget x fault menu); events: L.append (payload = function of size class, epoch, position), step (one real partition.replica on the leader's remote replicator), step!send / step!recv / step!hs / step!reset / step!ferr (the step's Send fails / its answer is lost after the follower handled it / the handshake's GetReplicaAckIndex fails / the follower applied Reset but the answer is lost / the follower's log append fails once: ReplicaLog answers (-1, err)), streamBreak, F.restart, F.loseLog, F.offline, F.online, L.loseTail (leader directory replaced by the copy taken before the last append, later appends carry a new epoch), L.gc (partition.IsExpire: sync acks + queue GC); a successor = two fresh WAL managers + replay of the shortest history + one event; states deduplicated by the canonical state (world.go Canon); state clauses on every transition, recovery goal (F.online + <=K fault-free steps must align both logs, first delivered index = first position the follower lacks and the leader holds) once per canonical state. distinct_nontrivial = canonical states with >=1 leader message and an existing follower log"
 	var names []string
 	for _, c := range cfgs {
 		names = append(names, c.Name)
